@@ -67,7 +67,7 @@ pub fn compile_sources(
   let checked_sources = samlang_profiling::measure_time(enable_profiling, "Type checking", || {
     samlang_checker::type_check_sources(&parsed_sources, &mut error_set).0
   });
-  let errors = error_set.pretty_print_error_messages(heap, &source_handles);
+  let errors = error_set.pretty_print_error_messages_in_module_name_order(heap, &source_handles);
   if error_set.has_errors() {
     return Err(errors);
   }
